@@ -77,6 +77,21 @@ def run(ctx) -> None:
         texts += mutations(b, rnd, not ctx.quick)
     texts = list(dict.fromkeys(texts))
     tasks = [{"text": t, "scan_budget": 40 * (len(t) + 2) ** 2 + 1000 + 1, "parse_budget_base": 1001} for t in texts]
+    # inputs that come with files: .text strings over joker fragments with a table, and every truncation of a patch
+    frag = ["A", "B", "[0x12]", "[0x12", "[0x1", "[0x", "[", "]", "[0xZZ]", "0x12]", " "]
+    tbl = {"t.tbl": {"text": "41=A\n4243=B\n"}}
+    for n in (1, 2, 3):
+        for t in itertools.product(frag, repeat=n):
+            src = "*=0x008000\n.table 't.tbl'\n.text '" + "".join(t) + "'\n"
+            texts.append(src)
+            tasks.append({"text": src, "files": tbl, "scan_budget": 40 * (len(src) + 2) ** 2 + 1001, "parse_budget_base": 1001})
+    patch = [80, 65, 84, 67, 72, 0, 0x12, 0x34, 0, 3, 1, 2, 3, 0, 0x20, 0, 0, 0, 0, 4, 9, 0x01, 0x80, 0x00, 0, 1, 7, 69, 79, 70]
+    for cut in range(len(patch) + 1):
+        for src in ("*=0x008000\n.db 1\n.include_ips 'p.ips', 0\n.db 2\n",
+                    "*=0x008000\n.macro inc() {\n.include_ips 'p.ips', 0x10\n}\n.for k := 0, 2 {\ninc()\n}\n"):
+            texts.append(src + f"; cut {cut}")
+            tasks.append({"text": src, "files": {"p.ips": {"bytes": patch[:cut]}}, "scan_budget": 40 * (len(src) + 2) ** 2 + 1001,
+                          "parse_budget_base": 1001})
     res = Pool().map("progress_run", tasks, timeout=10, batch=200)
     recs, idx = [], []
     B = 500
